@@ -143,3 +143,41 @@ def const_str(node: ast.AST | None) -> str | None:
     if isinstance(node, ast.Constant) and isinstance(node.value, str):
         return node.value
     return None
+
+
+def callers_index(prog: Program) -> dict[str, set[str]]:
+    """callee qualname -> qualnames of the repo functions that call it (resolved call sites of the whole package)."""
+    idx = getattr(prog, "_callers_index", None)
+    if idx is None:
+        idx = {}
+        for fi in prog.repo.functions.values():
+            if isinstance(fi.node, ast.Lambda):
+                continue
+            for n in ast.walk(fi.node):
+                if isinstance(n, ast.Call):
+                    t = prog.resolve_call(fi, n)
+                    if isinstance(t, list):
+                        for c in t:
+                            idx.setdefault(c.qual, set()).add(fi.qual)
+        prog._callers_index = idx  # type: ignore[attr-defined]
+    return idx
+
+
+def exclusive_helpers(prog: Program, root: FuncInfo) -> set[str]:
+    """Functions all of whose callers are `root` or other exclusive helpers of root: code that is, in effect, part of root
+    (what "extract method" produces). Private names only - a public function can be called from outside the package."""
+    idx = callers_index(prog)
+    out: set[str] = set()
+    changed = True
+    while changed:
+        changed = False
+        for q, callers in idx.items():
+            if q in out or q == root.qual:
+                continue
+            name = q.split(":")[-1].split(".")[-1]
+            if not name.startswith("_") or name.startswith("__"):
+                continue
+            if callers and all(c == root.qual or c in out or c == q for c in callers):
+                out.add(q)
+                changed = True
+    return out
